@@ -677,11 +677,11 @@ pub fn run(ctx: &Ctx) -> (Level, Report) {
 	let mut report = Report::default();
 	for (name, check) in tape_checks(ctx) {
 		let quick = match name {
-			"deque" => 30_000,
-			"bits" => 12_000,
-			_ => 30_000,
+			"deque" => 200_000,
+			"bits" => 60_000,
+			_ => 200_000,
 		};
-		let out = ctx.random(name, quick, 20, 4096, &*check);
+		let out = ctx.random(name, quick, 10, 4096, &*check);
 		report.absorb(name, out);
 	}
 	(
